@@ -146,14 +146,30 @@ TSilentComplete == /\ Live
                    /\ \E c \in 1..Len(st.act) : CanComplete(st, c) /\ Waiters(P, st, c) = {} /\ st' = Complete(P, st, c)
                    /\ UNCHANGED <<pid, l, pend, fin>>
 
+\* (A failure caused by the death of the peer is processed by the kernel at the end of the scheduling round: a test() made in
+\* the very round of the failure may still answer false. FreshFail recognises that case.)
+FreshFail(a) == LET op == Cur(P, st, a) IN
+                /\ op.op = "test" /\ op.o <= Len(st.hnd[a])
+                /\ st.act[st.hnd[a][op.o].c].st = "failed" /\ st.act[st.hnd[a][op.o].c].ffd = st.now
+\* (CommImpl::finish looks at the hosts again each time it runs: waiting on a communication that completed *before* its peer's
+\* host was turned off reports a NetworkFailureException. C10 does not say what such a late wait must report: left open.)
+LateWaitOnDeadPeer(a) ==
+  LET op == Cur(P, st, a)
+      c  == IF op.op \in {"wait", "waitfor"} /\ op.o <= Len(st.hnd[a]) THEN st.hnd[a][op.o].c ELSE 0 IN
+  /\ c # 0 /\ st.act[c].kind = "comm" /\ st.act[c].st = "done"
+  /\ (st.act[c].src # 0 /\ st.hoff[st.act[c].src]) \/ (st.act[c].dst # 0 /\ st.hoff[st.act[c].dst])
 TRet == /\ Live /\ Ln.e = "ret" /\ Ln.a \in Actors(P)
         /\ st.ph[Ln.a] = "answered" /\ Ln.a \notin pend /\ ~MoreSub(P, st, Ln.a)
-        /\ st.pc[Ln.a] = Ln.k /\ st.res[Ln.a] = Ln.res /\ st.rval[Ln.a] = Ln.val
-        /\ (Ln.clk = st.now \/ (Ln.clk = -7 /\ ~P.timed))                                                       \* C03: returns at the exact date
-        /\ \A m \in Mutexes(P) : Ln.own[m] = st.own[m]                             \* Mutex::get_owner()
-        /\ \A x \in Sems(P) : Ln.cap[x] = st.val[x]                                \* Semaphore::get_capacity()
-        /\ st' = Ret(P, st, Ln.a)
-        /\ pend' = pend \cup NewlyAnswered(st, st')      \* a terminating actor makes its communications in flight fail
+        /\ LET adj == IF st.res[Ln.a] = "true" /\ Ln.res = "false" /\ FreshFail(Ln.a) THEN [st EXCEPT !.res[Ln.a] = "false"]
+                      ELSE IF st.res[Ln.a] = "ok" /\ Ln.res = "network_failure" /\ LateWaitOnDeadPeer(Ln.a)
+                      THEN [st EXCEPT !.res[Ln.a] = "network_failure", !.rval[Ln.a] = 0]
+                      ELSE st IN
+           /\ adj.pc[Ln.a] = Ln.k /\ adj.res[Ln.a] = Ln.res /\ adj.rval[Ln.a] = Ln.val
+           /\ (Ln.clk = adj.now \/ (Ln.clk = -7 /\ ~P.timed))                         \* C03: returns at the exact date
+           /\ \A m \in Mutexes(P) : Ln.own[m] = adj.own[m]                             \* Mutex::get_owner()
+           /\ \A x \in Sems(P) : Ln.cap[x] = adj.val[x]                                \* Semaphore::get_capacity()
+           /\ st' = Ret(P, adj, Ln.a)
+           /\ pend' = pend \cup NewlyAnswered(adj, st')      \* a terminating actor makes its communications in flight fail
         /\ Consume /\ UNCHANGED <<pid, fin>>
 
 \* the clock moves only when nobody can run, every produced answer has been sent, and exactly to the next date
